@@ -254,6 +254,22 @@ func (tr *Transaction) Commit() error {
 }
 
 func (tr *Transaction) discard() {
+	// A failed commit may have left this transaction's record in the current
+	// manifest file. Its tables may only be removed once a new manifest, which
+	// does not list them, has replaced that file; otherwise the next open
+	// would find a manifest that refers to missing tables.
+	if len(tr.tables) != 0 {
+		tr.db.compCommitLk.Lock()
+		broken := tr.db.s.manifestBroken
+		if broken && tr.db.s.commit(&sessionRecord{}, false) == nil {
+			broken = false
+		}
+		tr.db.compCommitLk.Unlock()
+		if broken {
+			tr.db.logf("transaction@discard keeping F·%d (manifest in doubt)", len(tr.tables))
+			return
+		}
+	}
 	// Discard transaction.
 	for _, t := range tr.tables {
 		tr.db.logf("transaction@discard @%d", t.fd.Num)
